@@ -183,6 +183,15 @@ func runBounded(repo, verif, prop, pkg, test, file, tier string, seed int) bound
 		fmt.Sscanf(m[1], "%d", &res.Cases)
 	}
 	switch {
+	case (strings.Contains(out, "panic:") || strings.Contains(out, "fatal error:")) && !reCases.MatchString(out):
+		// the real code panicked under the harness (before the harness finished): that is a failure of
+		// its own, whatever BOUNDED-FAIL lines were printed before
+		msg := out
+		if i := strings.Index(out, "panic:"); i >= 0 {
+			msg = out[i:]
+		}
+		res.Status, res.FailID, res.FailMsg = "fail", "panic", trunc(msg, 400)
+		res.Fails = [][2]string{{"panic", trunc(strings.ReplaceAll(msg, "\n", " "), 400)}}
 	case reFail.MatchString(out):
 		m := reFail.FindStringSubmatch(out)
 		res.Status, res.FailID, res.FailMsg = "fail", m[1], m[2]
